@@ -390,9 +390,13 @@ func uriEncode(input string) string {
 }
 
 func generateCanonicalQueryString(r *http.Request) string {
+	// Only a presigned URL (no Authorization header, see parseSignatureParameters)
+	// carries its signature in the query string, exactly once. On a header-signed
+	// request X-Amz-Signature is an ordinary parameter covered by the signature.
+	isPresigned := r.Header.Get("Authorization") == ""
 	queryStrings := []pair{}
 	for queryKey, queryValues := range r.URL.Query() {
-		if queryKey == "X-Amz-Signature" {
+		if isPresigned && queryKey == "X-Amz-Signature" {
 			continue
 		}
 		encodedQueryKey := uriEncode(queryKey)
@@ -637,6 +641,11 @@ func parseSignatureParameters(r *http.Request) (signatureParameters, error) {
 		}
 		if expires < 1 || expires > 604800 {
 			return signatureParameters{}, fmt.Errorf("X-Amz-Expires must be between 1 and 604800 seconds")
+		}
+		// The signature is left out of the canonical query string, so any further
+		// X-Amz-Signature parameter would be content that nobody signed.
+		if len(query["X-Amz-Signature"]) != 1 {
+			return signatureParameters{}, fmt.Errorf("presigned request must contain exactly one X-Amz-Signature")
 		}
 
 		slog.DebugContext(r.Context(), "Using presigned auth query parameters")
